@@ -133,8 +133,12 @@ where
 
             let yielded_count = self.yielded_counter.current();
             match begin_idx.cmp(&yielded_count) {
-                // begin_idx==yielded_count => it is our job to provide the items
-                Ordering::Equal => return Some(begin_idx),
+                // begin_idx==yielded_count => it is our job to provide the items;
+                // unless the end was reported between the two loads above: completed is set before yielded_counter is advanced
+                Ordering::Equal => match self.completed.load(atomic::Ordering::Relaxed) {
+                    true => return None,
+                    false => return Some(begin_idx),
+                },
 
                 Ordering::Less => return None,
 
@@ -155,6 +159,11 @@ where
             match item_idx.cmp(&yielded_count) {
                 // item_idx==yielded_count => it is our job to provide the item
                 Ordering::Equal => {
+                    // the end might have been reported between the two loads above: completed is set before yielded_counter is advanced
+                    if self.completed.load(atomic::Ordering::Relaxed) {
+                        return None;
+                    }
+
                     // SAFETY: no other thread has the valid condition to iterate, they are waiting
                     let guard = self.complete_on_unwind();
                     let next = unsafe { self.mut_iter() }.next();
